@@ -12,6 +12,7 @@ use std::sync::Mutex;
 use std::time::Instant;
 
 pub mod pt;
+pub mod worker;
 
 pub const VERIF_DIR: &str = "/verif";
 
